@@ -27,8 +27,10 @@ func vRawGet(s storage.KvStorage, key []byte) ([]byte, bool) {
 	return v, true
 }
 
-func vNewLock(s storage.KvStorage, id string) *resourceLock {
-	m := NewResourceLockManager(Config{Prefix: "/r", Identity: id, Timeout: time.Second}, s)
+func vNewLock(s storage.KvStorage, id string) *resourceLock { return vNewLockAt(s, id, "/r") }
+
+func vNewLockAt(s storage.KvStorage, id, prefix string) *resourceLock {
+	m := NewResourceLockManager(Config{Prefix: prefix, Identity: id, Timeout: time.Second}, s)
 	return m.GetResourceLock().(*resourceLock)
 }
 
@@ -120,7 +122,8 @@ func VerifC14Lock() {
 // succeeds, and the stored record is the winner's.
 func VerifC14Concurrent() {
 	var s storage.KvStorage
-	switch zzverif.Choose("engine", 4) {
+	engine := zzverif.Choose("engine", 4)
+	switch engine {
 	case 0:
 		cs := zzmodel.NewStore()
 		cs.BareCASError = zzverif.Bool("bareCAS")
@@ -136,45 +139,64 @@ func VerifC14Concurrent() {
 	default:
 		s = zzc11.NewMockTiKV()
 	}
-	ids := []string{"a", "b"}
-	locks := []*resourceLock{vNewLock(s, ids[0]), vNewLock(s, ids[1])}
+	// Natively the real engines' goroutines cannot be steered: the same scenario is repeated on
+	// fresh lock records with more candidates.
+	rounds, n := 1, 2
+	if !zzverif.Symbolic() && engine != 0 {
+		rounds, n = zzverif.Param("native_rounds", 150), zzverif.Param("native_candidates", 6)
+	}
 	update := zzverif.Choose("bothUpdate", 2) == 1
-	if update {
-		// a record both candidates have read (the lease of a third one ran out)
-		zzverif.Assert(vNewLock(s, "c").Create(resourcelock.LeaderElectionRecord{HolderIdentity: "c", LeaseDurationSeconds: 8}) == nil, "setup: record exists")
-		for _, l := range locks {
-			_, err := l.Get()
-			zzverif.Assert(err == nil, "setup: both candidates read the record")
-			zzverif.Assume(l.tso != 0) // an engine clock never reads 0 (Update takes 0 for "not initialised")
+	for round := 0; round < rounds; round++ {
+		prefix := "/r"
+		if round > 0 {
+			prefix = "/r" + string([]byte{byte('0' + round/100), byte('0' + round/10%10), byte('0' + round%10)})
 		}
-	}
-	errs := make([]error, 2)
-	done := make(chan struct{}, 2)
-	zzverif.ExploreSchedules(zzverif.Param("preempt", 2))
-	for i := range locks {
-		i := i
-		zzverif.Go("cand"+ids[i], func() {
-			rec := resourcelock.LeaderElectionRecord{HolderIdentity: ids[i], LeaseDurationSeconds: 8, LeaderTransitions: 1 + i}
-			if update {
-				errs[i] = locks[i].Update(rec)
-			} else {
-				errs[i] = locks[i].Create(rec)
+		ids := make([]string, n)
+		locks := make([]*resourceLock, n)
+		for i := range locks {
+			ids[i] = string(rune('a' + i))
+			locks[i] = vNewLockAt(s, ids[i], prefix)
+		}
+		if update {
+			// a record all candidates have read (the lease of another one ran out)
+			zzverif.Assert(vNewLockAt(s, "z", prefix).Create(resourcelock.LeaderElectionRecord{HolderIdentity: "z", LeaseDurationSeconds: 8}) == nil, "setup: record exists")
+			for _, l := range locks {
+				_, err := l.Get()
+				zzverif.Assert(err == nil, "setup: both candidates read the record")
+				zzverif.Assume(l.tso != 0) // an engine clock never reads 0 (Update takes 0 for "not initialised")
 			}
-			done <- struct{}{}
-		})
-	}
-	<-done
-	<-done
-	zzverif.StopExploring()
-	zzverif.Assert(errs[0] != nil || errs[1] != nil, "two candidates acting on the same observed state never both succeed")
-	zzverif.Assert(errs[0] == nil || errs[1] == nil, "one of the two candidates succeeds")
-	got, present := vRawGet(s, getElectionKey("/r"))
-	zzverif.Assert(present, "the lock record is stored")
-	for i := range locks {
-		if errs[i] == nil {
-			var rec resourcelock.LeaderElectionRecord
-			zzverif.Assert(json.Unmarshal(got, &rec) == nil && rec.HolderIdentity == ids[i], "the stored record is the winner's")
 		}
+		errs := make([]error, n)
+		done := make(chan struct{}, n)
+		zzverif.ExploreSchedules(zzverif.Param("preempt", 2))
+		for i := range locks {
+			i := i
+			zzverif.Go("cand"+ids[i], func() {
+				rec := resourcelock.LeaderElectionRecord{HolderIdentity: ids[i], LeaseDurationSeconds: 8, LeaderTransitions: 1 + i}
+				if update {
+					errs[i] = locks[i].Update(rec)
+				} else {
+					errs[i] = locks[i].Create(rec)
+				}
+				done <- struct{}{}
+			})
+		}
+		for range locks {
+			<-done
+		}
+		zzverif.StopExploring()
+		won := -1
+		for i := range locks {
+			if errs[i] == nil {
+				zzverif.Assert(won < 0, "two candidates acting on the same observed state never both succeed")
+				won = i
+			}
+		}
+		zzverif.Assert(won >= 0, "one of the two candidates succeeds")
+		got, present := vRawGet(s, getElectionKey(prefix))
+		zzverif.Assert(present, "the lock record is stored")
+		var rec resourcelock.LeaderElectionRecord
+		zzverif.Assert(json.Unmarshal(got, &rec) == nil && rec.HolderIdentity == ids[won], "the stored record is the winner's")
 	}
 	if update {
 		zzverif.Cover("both-update")
